@@ -483,6 +483,11 @@ pub fn load_map<'a>(map: &'a Map, big: bool) -> gimli::Dwarf<EndianSlice<'a, Run
 }
 
 /// Convert with Dwarf::from (or the stepwise API) and write all sections.
+thread_local! {
+    /// with the stepwise API: read the line program row by row (`read_row`) instead of sequence by sequence
+    pub static LINE_ROW_BY_ROW: std::cell::Cell<bool> = const { std::cell::Cell::new(false) };
+}
+
 pub fn convert_dwarf(map: &Map, big: bool, stepwise: bool) -> Result<Map, String> {
     let endian = if big { RunTimeEndian::Big } else { RunTimeEndian::Little };
     let dwarf = load_map(map, big);
@@ -493,6 +498,16 @@ pub fn convert_dwarf(map: &Map, big: bool, stepwise: bool) -> Result<Map, String
             let mut conv = wd.convert(&dwarf).map_err(|e| format!("convert:{:?}", e))?;
             while let Some((mut unit, root)) = conv.read_unit().map_err(|e| format!("convert:{:?}", e))? {
                 if let Some(mut lp) = unit.read_line_program(None, None).map_err(|e| format!("convert:{:?}", e))? {
+                    if LINE_ROW_BY_ROW.with(|c| c.get()) {
+                        // row-wise conversion, as in the documentation of ConvertLineProgram
+                        while let Some(row) = lp.read_row().map_err(|e| format!("convert:{:?}", e))? {
+                            match row {
+                                w::ConvertLineRow::SetAddress(a) => lp.set_address(w::Address::Constant(a)),
+                                w::ConvertLineRow::Row(r) => lp.generate_row(r),
+                                w::ConvertLineRow::EndSequence(len) => lp.end_sequence(len),
+                            }
+                        }
+                    }
                     // sequence-wise conversion
                     while let Some(seq) = lp.read_sequence().map_err(|e| format!("convert:{:?}", e))? {
                         if let Some(start) = seq.start {
@@ -663,6 +678,11 @@ fn line_nontrivial(c: &LineIn) -> bool {
 pub fn check_line(ch: &mut Choices, cx: &mut Ctx) -> R {
     let c = gen_line(ch);
     let stepwise = ch.chance(100);
+    let row_by_row = stepwise && ch.bool();
+    LINE_ROW_BY_ROW.with(|c| c.set(row_by_row));
+    if row_by_row {
+        cx.label("line: stepwise API, row by row");
+    }
     cx.label(if stepwise { "line: stepwise API (read_sequence)" } else { "line: Dwarf::from" });
     let secs = build_line_sections(&c);
     cx.sample_with(|| format!("line program v{} {} addr{} {} min_inst {} max_ops {} base {} range {} opcode_base {} dirs {:?} files {:?} ops {:?}", c.h.version, if c.h.format64 { "dwarf64" } else { "dwarf32" }, c.h.address_size, if c.big { "BE" } else { "LE" }, c.h.min_inst_len, c.h.max_ops, c.h.line_base, c.h.line_range, c.h.opcode_base, c.h.dirs, c.h.files.iter().map(|f| (&f.path, f.dir)).collect::<Vec<_>>(), c.ops));
@@ -767,6 +787,7 @@ pub fn describe_fdwarf(d: &FDwarf) -> String {
 pub fn check_forest(ch: &mut Choices, cx: &mut Ctx) -> R {
     let d = gen_fdwarf(ch, &GenOpts { max_units: 3, max_dies: 10, lines: true, bad_refs: 0, split: false });
     let stepwise = ch.chance(80);
+    LINE_ROW_BY_ROW.with(|c| c.set(stepwise && ch.bool()));
     cx.label(if stepwise { "forest: stepwise API" } else { "forest: Dwarf::from" });
     cx.sample_with(|| describe_fdwarf(&d));
     let asm = assemble(&d);
